@@ -16,6 +16,10 @@ def sids_for(style):
     if style == "dotted":
         base = "c10.svc-" + "cd" * 28
         return base, "f" * 64, base.replace(".", "_").replace("-", ".")
+    if style == "glob":
+        # characters that mean something to glob / fnmatch are ordinary characters in a service id
+        base = "c10" + "ab" * 30
+        return base + "?", "f" * 64, base + "7"
     if style == "long":
         base = "c10" + "cd" * 70
         return base + "-tail-A", "f" * 64, base + "-tail-B"
@@ -89,7 +93,7 @@ class C10(P.Property):
                     st_["burst"] = mk(rng.choice(["config", "upload", "upload", "search"]))
                 steps.append(st_)
             elif k == "reconnect":
-                steps.append({"do": k, "gap": rng.choice([0, 0.5, 1.5, 0, 0.5, 1.5, 30]), "abort": rng.random() < 0.3})
+                steps.append({"do": k, "gap": rng.choice([0, 0.5, 1.5, 0, 0.5, 1.5, 30, 700000]), "abort": rng.random() < 0.3})  # 700000 s: eight days later
             elif k in ("config_bad", "upload_bad"):
                 steps.append({"do": k, "v": rng.randint(0, 1)})
             elif k == "foreign":
@@ -101,7 +105,7 @@ class C10(P.Property):
                                      dict(lo=0.0, hi=0.0), dict(lo=0.0, hi=0.0, quantum=0.001), dict(lo=0.0005, hi=0.004, quantum=0.002)]),  # no latency / busy loop at all -- events tie and only the loop's FIFO order decides
                      skew=rng.choice([1.0, 1.0, 0.5, 2.0]), bufsize=rng.choice([8192, 8192, 16]), forced_gap=rng.choice([0, 0.5, 1.5]),
                      decoy=rng.random() < 0.5, gc_every=rng.choice([0, 0, 1, 3]),
-                     digest=rng.choice(["unique", "unique", "same", "none"]), sid_style=rng.choice(["hex", "hex", "dotted", "long"]),
+                     digest=rng.choice(["unique", "unique", "same", "none"]), sid_style=rng.choice(["hex", "hex", "dotted", "long", "glob"]),
                      read_fault=({"step": rng.randrange(len(steps)), "skip": rng.choice([0, 0, 1, 2])} if rng.random() < 0.1 else None))
         return {"property": "C10", "seed": seed, "knobs": knobs, "steps": steps}
 
@@ -121,6 +125,7 @@ class C10(P.Property):
         SID, FOREIGN, DECOY = sids_for(knobs.get("sid_style", "hex"))
         w = self.world_for(knobs["scheme"])
         run = fe.Run(plan["seed"], knobs)
+        run.sim.loop.max_time = 2.0e7  # reconnects may come eight (virtual) days later
         accepted = {}  # file name -> bytes on disk right after the request that created it was acknowledged
         msgno = [0]
 
@@ -402,12 +407,34 @@ class C10(P.Property):
                     return
         await a.close()
         run.seam.fail_read = None  # faults stop before the final look
+        arm[0] = None
         await asyncio.sleep(3 * max(1.0, knobs.get("skew", 1.0)))
         out["reconnects"] += 1
         p = await connect("final probe")
         if p is not None:
             await p.close()
             await asyncio.sleep(3)
+        if knobs.get("decoy") and not viol:
+            # the other service of this server must be exactly where it was left: ready, answering from its own index
+            d2 = fe.RawActor(run, "decoy-again", DECOY)
+            await d2.open()
+            await d2.wait_change(lambda: d2.init is not None, 30)
+            if d2.init is None or d2.init.get("state") != 2:
+                viol.append(V("C10.init", "STATE_MISMATCH", f"another service of the same server, left in the ready state, now reports {d2.init} "
+                                                        f"(requests for one service id changed another)", site="decoy"))
+                return
+            await d2.send("token", w["T_decoy"], token_digest=b"decoy-again")
+            await d2.wait_change(lambda: len(d2.results) > 0, 30)
+            try:
+                got = fe.result_list(L, w["cfgobj"], d2.results[-1]) if d2.results else None
+            except Exception:
+                got = None
+            if got is None or len(got) != 3:
+                viol.append(V("C10.search", "WRONG_RESULT", f"another service of the same server no longer answers from its own index "
+                                                            f"({'no result' if got is None else len(got)})", site="decoy"))
+                return
+            await d2.close()
+            await asyncio.sleep(2)
 
     @staticmethod
     def _accepts_after(m1, m2, st):
